@@ -142,10 +142,10 @@ Proof.
 Qed.
 
 Lemma key_material_private_vt se : value_total (key_material_private mulG se).
-Proof. unfold key_material_private. destruct (valid_exponent se); cbn; auto. destruct (on_curve _); cbn; auto. Qed.
+Proof. unfold key_material_private. destruct (valid_exponent se); cbn; auto. destruct (on_curve _); cbn; auto. destruct (in_range _); cbn; auto. Qed.
 
 Lemma key_material_public_vt pt : value_total (key_material_public pt).
-Proof. unfold key_material_public. destruct (on_curve _); cbn; auto. Qed.
+Proof. unfold key_material_public. destruct (on_curve _); cbn; auto. destruct (in_range _); cbn; auto. Qed.
 
 Lemma keys_private_vt se c : value_total (keys_private mulG se c).
 Proof. unfold keys_private. apply value_total_bind. apply key_material_private_vt. intros; cbn; auto. Qed.
@@ -230,7 +230,7 @@ Proof.
 Qed.
 
 Lemma sec_total net s : returns (sec modsqrt net s).
-Proof. unfold sec. destruct (h2b s); auto with c18. apply catch_all_returns. Qed.
+Proof. unfold sec. destruct (h2b _); auto with c18. apply catch_all_returns. Qed.
 
 Lemma hd_of_payload_total pre kind d : returns (hd_of_payload mulG modsqrt pre kind d).
 Proof.
@@ -323,47 +323,99 @@ Proof.
   - right; eauto.
 Qed.
 
-Lemma public_pair_total net s :
-  on_curve (mulG 1) = true -> returns (public_pair int10 int16 mulG modsqrt net s).
+Lemma public_pair_point_spec s :
+  public_pair_point int10 int16 modsqrt s = Ret None \/
+  exists pt, public_pair_point int10 int16 modsqrt s = Ret (Some pt) /\ on_curve pt = true.
 Proof.
-  intros HG. unfold public_pair, keys_private, key_material_private.
-  replace (valid_exponent 1) with true by (vm_compute; reflexivity). rewrite HG. cbn [bind].
-  destruct (public_pair_step_spec 44%N s None I) as [->|[q [-> Hq]]]; auto with c18.
-  destruct (public_pair_step_spec 47%N s q Hq) as [->|[q' [-> Hq']]]; auto with c18.
-  destruct q' as [pt|]; auto with c18.
-  cbn in Hq'. unfold keys_public_pair, key_material_public. rewrite Hq'. cbn. auto with c18.
+  unfold public_pair_point.
+  destruct (public_pair_step_spec 44%N s None I) as [->|[q [-> Hq]]]; auto.
+  destruct (public_pair_step_spec 47%N s q Hq) as [->|[q' [-> Hq']]]; auto.
+  destruct q' as [pt|]; auto. right. eauto.
 Qed.
 
-Lemma public_key_total net s :
-  on_curve (mulG 1) = true -> returns (public_key int10 int16 mulG modsqrt net s).
+(* the point public_pair hands to Key.__init__ has a coordinate outside [0, p) *)
+Definition pair_unreduced (s : text) : bool :=
+  match public_pair_point int10 int16 modsqrt s with
+  | Ret (Some pt) => negb (in_range pt)
+  | _ => false
+  end.
+
+Lemma public_pair_partial net s :
+  on_curve (mulG 1) = true -> in_range (mulG 1) = true -> pair_unreduced s = false ->
+  returns (public_pair int10 int16 mulG modsqrt net s).
 Proof.
-  intros HG. apply disabled_or_returns. apply first_of_returns. intros f [<-|[<-|[]]].
-  apply public_pair_total, HG. apply sec_total.
+  intros HG HR Hx. unfold public_pair, keys_private, key_material_private.
+  replace (valid_exponent 1) with true by (vm_compute; reflexivity). rewrite HG, HR. cbn [bind].
+  unfold pair_unreduced in Hx.
+  destruct (public_pair_point_spec s) as [E|[pt [E Hc]]]; rewrite E in *; cbn [bind]; auto with c18.
+  apply negb_false_iff in Hx. unfold keys_public_pair, key_material_public. rewrite Hc, Hx. cbn. auto with c18.
+Qed.
+
+Lemma public_key_partial net s :
+  on_curve (mulG 1) = true -> in_range (mulG 1) = true -> pair_unreduced s = false ->
+  returns (public_key int10 int16 mulG modsqrt net s).
+Proof.
+  intros HG HR Hx. apply disabled_or_returns. apply first_of_returns. intros f [<-|[<-|[]]].
+  apply public_pair_partial; assumption. apply sec_total.
+Qed.
+
+(* whatever public_pair returns has coordinates in [0, p) and lies on the curve *)
+Lemma public_pair_in_range net s o :
+  public_pair int10 int16 mulG modsqrt net s = Ret (Some o) ->
+  exists pt, o = OKey (Pub pt) true /\ on_curve pt = true /\ in_range pt = true.
+Proof.
+  unfold public_pair. destruct (keys_private mulG 1 true); cbn [bind]; try discriminate.
+  destruct (public_pair_point int10 int16 modsqrt s) as [[pt|]| |]; cbn [bind]; try discriminate.
+  unfold keys_public_pair, key_material_public.
+  destruct (on_curve pt) eqn:C; cbn [bind]; try discriminate.
+  destruct (in_range pt) eqn:R; cbn [bind]; try discriminate.
+  intros [= <-]. eauto.
 Qed.
 
 End Total.
 
 (* ---------------------------------------------------------------------------------------------- *)
-(* the seed parsers and the dispatchers that contain them: total outside named exclusions *)
-
-(* P:<passphrase> whose passphrase holds a lone surrogate: str.encode("utf8") raises outside any try *)
-Definition seed_surrogate (s : text) : bool :=
-  match seed_secret s with Raise _ => true | _ => false end.
-(* the text is a well-formed H:/P: seed, so hd_seed reaches the missing NetworkKeys.hd_seed *)
-Definition seed_well_formed (s : text) : bool :=
-  match seed_secret s with Ret (Some _) => true | _ => false end.
-(* the left half of the HMAC is 0 or >= n (probability 2^-127; no input known) *)
+(* the seed parsers and the dispatchers that contain them.  The only exclusion left: the derived key number is
+   0 or >= n (Key.__init__ raises InvalidSecretExponentError outside any try; probability 2^-127, no input known) *)
 Definition seed_exponent_bad (hmac512 : bytes -> bytes) (s : text) : bool :=
   match seed_secret s with
   | Ret (Some m) => negb (valid_exponent (from_bytes (take 32 (hmac512 m))))
   | _ => false
   end.
-(* E:<32 hex digits> whose stretched key is 0 or >= n (same remark) *)
 Definition electrum_seed_bad (stretch : bytes -> Z) (s : text) : bool :=
   match electrum_to_blob s with
   | Some blob => Nat.eqb (length blob) 16 && negb (valid_exponent (stretch blob))
   | None => false
   end.
+
+Lemma seed_secret_returns s : exists m, seed_secret s = Ret m.
+Proof.
+  unfold seed_secret. destruct (parse_colon_prefix s) as [[a b]|]; eauto.
+  destruct (negb _); eauto. destruct (text_eqb a tH). destruct (h2b b); eauto. destruct (utf8 b); eauto.
+Qed.
+
+Lemma split_at_spec c s a b : split_at c s = Some (a, b) -> s = a ++ c :: b.
+Proof.
+  revert a b; induction s as [|x r IH]; intros a b; cbn [split_at]. discriminate.
+  destruct (N.eqb_spec x c) as [->|_]. intros [= <- <-]. reflexivity.
+  destruct (split_at c r) as [[a' b']|]; [|discriminate]. intros [= <- <-]. cbn. f_equal. apply IH. reflexivity.
+Qed.
+
+Lemma text_eqb_eq a b : text_eqb a b = true -> a = b.
+Proof.
+  revert b; induction a as [|x a IH]; intros [|y b]; cbn; try discriminate; auto.
+  intros H. apply andb_prop in H as [H1 H2]. apply N.eqb_eq in H1. f_equal; auto.
+Qed.
+
+(* a seed text starts with exactly "H:" or "P:" *)
+Lemma seed_prefix_exact s m : seed_secret s = Ret (Some m) ->
+  exists rest, s = tH ++ 58%N :: rest \/ s = tP ++ 58%N :: rest.
+Proof.
+  unfold seed_secret. destruct (parse_colon_prefix s) as [[a b]|] eqn:E; [|discriminate].
+  apply split_at_spec in E. unfold in_HP.
+  destruct (text_eqb a tH) eqn:EH. apply text_eqb_eq in EH; subst a. eauto.
+  destruct (text_eqb a tP) eqn:EP; [|discriminate]. apply text_eqb_eq in EP; subst a. eauto.
+Qed.
 
 Section TotalSeeds.
 Variable b58 : text -> option bytes.
@@ -375,93 +427,63 @@ Variable stretch : bytes -> Z.
 Variable mulG : Z -> Z * Z.
 Variable modsqrt : Z -> Z.
 Hypothesis Hhmac : forall m, length (hmac512 m) = 64%nat.
-Hypothesis HmulG : forall k, valid_exponent k = true -> on_curve (mulG k) = true.
+Hypothesis HmulG : forall k, valid_exponent k = true -> on_curve (mulG k) = true /\ in_range (mulG k) = true.
 
-Lemma seed_secret_cases s :
-  seed_surrogate s = false -> seed_secret s = Ret None \/ exists m, seed_secret s = Ret (Some m).
+Lemma key_material_private_ok k : valid_exponent k = true -> key_material_private mulG k = Ret (Prv k (mulG k)).
+Proof. intros H. unfold key_material_private. destruct (HmulG k H) as [C R]. rewrite H, C, R. reflexivity. Qed.
+
+Lemma bip32_seed_total net s :
+  seed_exponent_bad hmac512 s = false -> returns (bip32_seed hmac512 mulG net s).
 Proof.
-  unfold seed_surrogate. destruct (seed_secret s) as [[m|]|e|] eqn:E; intros H; try discriminate; eauto.
-  exfalso. unfold seed_secret in E. destruct (parse_colon_prefix s) as [[a b]|]; [|discriminate].
-  destruct (negb _); [discriminate|]. destruct (text_eqb a tH). destruct (h2b b); discriminate.
-  destruct (utf8 b); discriminate.
+  intros H2. unfold bip32_seed. destruct (seed_secret_returns s) as [[m|] E]; unfold seed_exponent_bad in H2; rewrite E in *; cbn [bind].
+  - apply negb_false_iff in H2. unfold from_master_secret.
+    rewrite (key_material_private_ok _ H2). cbn [bind]. unfold drop. rewrite skipn_length, Hhmac. cbn. auto with c18.
+  - auto with c18.
 Qed.
 
-Lemma bip32_seed_partial net s :
-  seed_surrogate s = false -> seed_exponent_bad hmac512 s = false -> returns (bip32_seed hmac512 mulG net s).
-Proof.
-  intros H1 H2. unfold bip32_seed. destruct (seed_secret_cases s H1) as [E|[m E]].
-  - rewrite E. cbn. auto with c18.
-  - unfold seed_exponent_bad in H2. rewrite E in *. cbn [bind].
-    apply negb_false_iff in H2. unfold from_master_secret, key_material_private.
-    rewrite H2, (HmulG _ H2). cbn [bind]. unfold drop. rewrite skipn_length, Hhmac. cbn. auto with c18.
-Qed.
+Lemma hd_seed_total net s :
+  seed_exponent_bad hmac512 s = false -> returns (hd_seed hmac512 mulG net s).
+Proof. exact (bip32_seed_total net s). Qed.
 
-Lemma hd_seed_partial net s :
-  seed_surrogate s = false -> seed_well_formed s = false -> returns (hd_seed net s).
-Proof.
-  intros H1 H2. unfold hd_seed. destruct (seed_secret_cases s H1) as [E|[m E]].
-  - rewrite E. cbn. auto with c18.
-  - unfold seed_well_formed in H2. rewrite E in H2. discriminate.
-Qed.
-
-Lemma electrum_seed_partial net s :
+Lemma electrum_seed_total net s :
   electrum_seed_bad stretch s = false -> returns (electrum_seed stretch mulG net s).
 Proof.
   unfold electrum_seed_bad, electrum_seed. destruct (electrum_to_blob s) as [blob|]; auto with c18.
   destruct (Nat.eqb _ _); auto with c18. cbn [andb]. intros H. apply negb_false_iff in H.
-  unfold key_material_private. rewrite H, (HmulG _ H). cbn. auto with c18.
+  rewrite (key_material_private_ok _ H). cbn. auto with c18.
 Qed.
 
-Lemma hierarchical_key_partial net s :
-  seed_surrogate s = false -> seed_exponent_bad hmac512 s = false -> electrum_seed_bad stretch s = false ->
+Lemma hierarchical_key_total net s :
+  seed_exponent_bad hmac512 s = false -> electrum_seed_bad stretch s = false ->
   returns (hierarchical_key b58 hmac512 stretch mulG modsqrt net s).
 Proof.
-  intros H1 H2 H3. apply disabled_or_returns. apply first_of_returns.
+  intros H2 H3. apply disabled_or_returns. apply first_of_returns.
   intros f [<-|[<-|[<-|[<-|[<-|[<-|[<-|[]]]]]]]].
-  - apply bip32_seed_partial; assumption.
+  - apply bip32_seed_total; assumption.
   - apply hd_any_total.
   - apply hd_any_total.
   - apply hd_any_total.
-  - apply electrum_seed_partial; assumption.
+  - apply electrum_seed_total; assumption.
   - apply electrum_prv_total.
   - apply electrum_pub_total.
 Qed.
 
-Lemma secret_partial net s :
-  seed_surrogate s = false -> seed_exponent_bad hmac512 s = false -> electrum_seed_bad stretch s = false ->
+Lemma secret_total net s :
+  seed_exponent_bad hmac512 s = false -> electrum_seed_bad stretch s = false ->
   returns (secret b58 int10 int16 hmac512 stretch mulG modsqrt net s).
 Proof.
-  intros H1 H2 H3. apply first_of_returns. intros f [<-|[<-|[]]].
-  apply private_key_total. apply hierarchical_key_partial; assumption.
+  intros H2 H3. apply first_of_returns. intros f [<-|[<-|[]]].
+  apply private_key_total. apply hierarchical_key_total; assumption.
 Qed.
 
-Lemma parse_any_partial net s :
-  seed_surrogate s = false -> seed_exponent_bad hmac512 s = false -> electrum_seed_bad stretch s = false ->
+Lemma parse_any_total net s :
+  seed_exponent_bad hmac512 s = false -> electrum_seed_bad stretch s = false ->
   returns (parse_any b58 bech32 int10 int16 compile hmac512 stretch mulG modsqrt net s).
 Proof.
-  intros H1 H2 H3. apply orelse_returns. apply payable_total. apply secret_partial; assumption.
+  intros H2 H3. apply orelse_returns. apply payable_total. apply secret_total; assumption.
 Qed.
 
 End TotalSeeds.
-
-(* --- refutations of unconditional totality --- *)
-Definition t_hd_seed_witness : text := [72; 58; 48; 48]%N.            (* "H:00" *)
-Definition t_surrogate_witness : text := [80; 58; 55296]%N.           (* "P:\ud800" *)
-
-Lemma hd_seed_raises net : hd_seed net t_hd_seed_witness = Raise E_ATTR.
-Proof. reflexivity. Qed.
-
-Lemma bip32_seed_raises hmac512 mulG net : bip32_seed hmac512 mulG net t_surrogate_witness = Raise E_VALUE.
-Proof. reflexivity. Qed.
-
-Lemma hd_seed_surrogate_raises net : hd_seed net t_surrogate_witness = Raise E_VALUE.
-Proof. reflexivity. Qed.
-
-(* with decoders that refuse the text (as the real ones do) the catch-all parsers inherit the exception *)
-Lemma parse_any_raises net : n_disabled net = false ->
-  parse_any (fun _ => None) (fun _ => None) (fun _ => None) (fun _ => None) (fun _ => None)
-            (fun _ => []) (fun _ => 0) (fun _ => (0, 0)) (fun _ => 0) net t_surrogate_witness = Raise E_VALUE.
-Proof. intros H. unfold parse_any, payable, address, secret, private_key, hierarchical_key, disabled_or. rewrite H. reflexivity. Qed.
 
 (* ---------------------------------------------------------------------------------------------- *)
 (* payloads of the wrong length / with out-of-range contents are refused *)
@@ -602,7 +624,9 @@ Lemma catch_value_inv m o : catch_value m = Ret (Some o) -> m = Ret o.
 Proof. destruct m; cbn; try discriminate. intros H; inversion H; reflexivity. destruct (is_value_error e); discriminate. Qed.
 
 Lemma key_material_public_inv pt k : key_material_public pt = Ret k -> k = Pub pt.
-Proof. unfold key_material_public. destruct (on_curve _); [|discriminate]. intros H; inversion H; reflexivity. Qed.
+Proof. unfold key_material_public. destruct (on_curve _); [|discriminate]. destruct (in_range _); [|discriminate]. intros H; inversion H; reflexivity. Qed.
+Lemma key_material_public_facts pt k : key_material_public pt = Ret k -> on_curve pt = true /\ in_range pt = true.
+Proof. unfold key_material_public. destruct (on_curve _); [|discriminate]. destruct (in_range _); [|discriminate]. auto. Qed.
 
 Section Reser.
 Variable mulG : Z -> Z * Z.
@@ -612,7 +636,7 @@ Lemma catch_value_keys_private_inv se c o :
   catch_value (keys_private mulG se c) = Ret (Some o) -> exists pt, o = OKey (Prv se pt) c.
 Proof.
   unfold keys_private, key_material_private. destruct (valid_exponent se); [|cbn; discriminate].
-  destruct (on_curve _); cbn; [|discriminate]. intros H; inversion H. eauto.
+  destruct (on_curve _); cbn; [|discriminate]. destruct (in_range _); cbn; [|discriminate]. intros H; inversion H. eauto.
 Qed.
 
 Lemma wif_reserialize net d o : wif_of_payload mulG net d = Ret (Some o) -> wif_payload net o = Some d.
@@ -667,7 +691,7 @@ Qed.
 Lemma key_material_private_inv se k : key_material_private mulG se = Ret k -> exists pt, k = Prv se pt.
 Proof.
   unfold key_material_private. destruct (valid_exponent se); [|discriminate]. destruct (on_curve _); [|discriminate].
-  intros H; inversion H; eauto.
+  destruct (in_range _); [|discriminate]. intros H; inversion H; eauto.
 Qed.
 
 (* a 33-byte SEC that decodes re-encodes (compressed) to itself *)
@@ -991,7 +1015,7 @@ Definition btc_cfg : netcfg := match cfg_by_symbol "btc" with Some c => c | None
 
 Definition y_for_x1 : Z := 29896722852569046015560700294576055776214335159245303116488692907525646231534.
 
-(* 1. the text form of a public key ("BTCSEC:02...") is not parsed back *)
+(* 1. the text form of a public key ("BTCSEC:02...") parses back (it did not before the SEC prefix was stripped) *)
 Definition w_sec_hex : text :=
   text_of_string "020000000000000000000000000000000000000000000000000000000000000001".
 Definition w_sec_key : obj := OKey (Pub (1, y_for_x1)) true.
@@ -1002,29 +1026,21 @@ Lemma w_sec_parses : public_key dec10 no_int mulG_w modsqrt_real btc_cfg w_sec_h
 Proof. vm_compute. reflexivity. Qed.
 Lemma w_sec_as_text : public_key_text btc_cfg w_sec_key = Ret w_sec_text.
 Proof. vm_compute. reflexivity. Qed.
-Lemma w_sec_not_reparsed : public_key dec10 no_int mulG_w modsqrt_real btc_cfg w_sec_text = Ret None.
+Lemma w_sec_reparsed : public_key dec10 no_int mulG_w modsqrt_real btc_cfg w_sec_text = Ret (Some w_sec_key).
 Proof. vm_compute. reflexivity. Qed.
 
-(* 2. public_pair accepts coordinates outside [0, p): x = p + 1 names the point with x = 1 *)
+(* 2. public_pair: x = p + 1 names the point with x = 1; Key.__init__ now refuses it, but the refusal
+      (InvalidPublicPairError) is raised outside any try and escapes public_pair / public_key *)
 Definition w_pair_text : text :=
   text_of_string "115792089237316195423570985008687907853269984665640564039457584007908834671664/even".
-Lemma w_pair_unreduced :
-  public_pair dec10 no_int mulG_w modsqrt_real btc_cfg w_pair_text = Ret (Some (OKey (Pub (curve_p + 1, y_for_x1)) true)).
-Proof. vm_compute. reflexivity. Qed.
-(* ... and for x >= 2^256 the returned key cannot even be turned into text *)
-Definition w_pair_text2 : text :=
-  text_of_string "115792089237316195423570985008687907853269984665640564039457584007913129639936/even".
-Definition w_pair_key2 : obj :=
-  OKey (Pub (2 ^ 256, 100174509157537212670360016818575022683172396031429643043046884876835858608200)) true.
-Lemma w_pair_overflow :
-  public_pair dec10 no_int mulG_w modsqrt_real btc_cfg w_pair_text2 = Ret (Some w_pair_key2) /\
-  public_key_text btc_cfg w_pair_key2 = Raise E_OVERFLOW.
+Lemma w_pair_raises :
+  public_pair dec10 no_int mulG_w modsqrt_real btc_cfg w_pair_text = Raise E_PUBPAIR /\
+  public_key dec10 no_int mulG_w modsqrt_real btc_cfg w_pair_text = Raise E_PUBPAIR.
 Proof. split; vm_compute; reflexivity. Qed.
-(* the same acceptance through Key.__init__ in electrum_pub *)
+(* electrum_pub catches the same refusal *)
 Definition w_electrum_text : text :=
   text_of_string "E:fffffffffffffffffffffffffffffffffffffffffffffffffffffffefffffc304218f20ae6c646b363db68605822fb14264ca8d2587fdd6fbc750d587e76a7ee".
-Lemma w_electrum_unreduced :
-  electrum_pub btc_cfg w_electrum_text = Ret (Some (OElectrum None (Pub (curve_p + 1, y_for_x1)))).
+Lemma w_electrum_refused : electrum_pub btc_cfg w_electrum_text = Ret None.
 Proof. vm_compute. reflexivity. Qed.
 
 (* 3. an xpub-prefixed payload whose key field is 00 || k comes back from bip32_pub as a PRIVATE node *)
@@ -1035,9 +1051,10 @@ Lemma w_hd_pub_gives_private :
   Ret (Some (OHd Bip32 0 [x00; x00; x00; x00] 0 (repeatb x00 32) (Prv 1 (curve_gx, curve_gy)))).
 Proof. vm_compute. reflexivity. Qed.
 
-(* 4. bip32_seed: `pair[0] in "HP"` is a substring test, so ":" alone is a seed with the empty passphrase *)
-Lemma w_seed_empty_prefix : seed_secret [58%N] = Ret (Some []) /\ seed_secret (text_of_string "HP:abc") = Ret (Some [x61; x62; x63]).
-Proof. split; vm_compute; reflexivity. Qed.
+(* 4. the seed prefix is exactly "H" or "P" now *)
+Lemma w_seed_prefix_refused : seed_secret [58%N] = Ret None /\ seed_secret (text_of_string "HP:abc") = Ret None
+  /\ seed_secret [80; 58; 55296]%N = Ret None.
+Proof. repeat split; vm_compute; reflexivity. Qed.
 
 Local Opaque Z.pow Z.modulo Z.mul Z.add Z.sub Z.land.
 
@@ -1102,40 +1119,31 @@ Proof.
     rewrite C. unfold sec_bytes. apply (sec33_roundtrip (fun _ => (0, 0)) modsqrt); assumption.
 Qed.
 
-Lemma sec_reserialize_without_prefix net s o :
-  sec modsqrt net s = Ret (Some o) ->
-  exists t, public_key_text net o = Ret (n_sec_prefix net ++ t) /\ sec modsqrt net t = Ret (Some o).
+Lemma text_starts_with_app pre t : text_starts_with pre (pre ++ t) = true.
+Proof. induction pre; cbn; [reflexivity|]. rewrite N.eqb_refl. exact IHpre. Qed.
+
+Lemma strip_sec_prefix_text net t : strip_sec_prefix net (n_sec_prefix net ++ t) = t.
 Proof.
-  unfold sec. destruct (h2b s) as [b|]; [|discriminate]. intros H. apply catch_all_inv in H.
+  unfold strip_sec_prefix. destruct (n_sec_prefix net) as [|c pre] eqn:E. reflexivity.
+  rewrite text_starts_with_app. unfold drop. apply skipn_app_exact.
+Qed.
+
+(* Key.as_text() of a key returned by sec() parses back to the same key *)
+Lemma sec_reserialize net s o :
+  sec modsqrt net s = Ret (Some o) ->
+  exists t, public_key_text net o = Ret t /\ sec modsqrt net t = Ret (Some o).
+Proof.
+  unfold sec at 1. destruct (h2b _) as [b|]; [|discriminate]. intros H. apply catch_all_inv in H.
   destruct (key_from_sec_bytes b o H) as (pt & -> & Hb).
-  exists (b2h b). split.
+  exists (n_sec_prefix net ++ b2h b). split.
   - unfold public_key_text. rewrite Hb. reflexivity.
-  - rewrite h2b_b2h, H. reflexivity.
+  - unfold sec. rewrite strip_sec_prefix_text, h2b_b2h, H. reflexivity.
 Qed.
 
 End SecReser.
 
 (* ---------------------------------------------------------------------------------------------- *)
 (* the statements of Props/C18.v that need more than one lemma *)
-Lemma hd_seed_not_total : ~ (forall net s, returns (hd_seed net s)).
-Proof. intros H. destruct (H btc_cfg t_hd_seed_witness) as [v Hv]. rewrite hd_seed_raises in Hv. discriminate. Qed.
-
-Lemma bip32_seed_not_total : ~ (forall hmac512 mulG net s, returns (bip32_seed hmac512 mulG net s)).
-Proof.
-  intros H. destruct (H (fun _ => []) (fun _ => (0, 0)) btc_cfg t_surrogate_witness) as [v Hv].
-  rewrite bip32_seed_raises in Hv. discriminate.
-Qed.
-
-Lemma parse_any_not_total :
-  ~ (forall b58 bech32 int10 int16 compile hmac512 stretch mulG modsqrt net s,
-     returns (parse_any b58 bech32 int10 int16 compile hmac512 stretch mulG modsqrt net s)).
-Proof.
-  intros H.
-  destruct (H (fun _ => None) (fun _ => None) (fun _ => None) (fun _ => None) (fun _ => None)
-              (fun _ => []) (fun _ => 0) (fun _ => (0, 0)) (fun _ => 0) btc_cfg t_surrogate_witness) as [v Hv].
-  rewrite parse_any_raises in Hv by reflexivity. discriminate.
-Qed.
-
 Lemma address_wrong_length net pre d :
   (n_address net = Some pre -> length d <> (length pre + 20)%nat -> p2pkh_of_payload net d = Ret None) /\
   (n_p2sh net = Some pre -> length d <> (length pre + 20)%nat -> p2sh_of_payload net d = Ret None).
@@ -1191,36 +1199,20 @@ Proof.
   rewrite forallb_forall in T. apply (hd_prefixes_okb_ok net kind p); [|exact Hp]. apply T. destruct kind; cbn; auto.
 Qed.
 
-Lemma public_key_text_not_reparsed :
-  ~ (forall int10 int16 mulG modsqrt net s o t,
-     public_key int10 int16 mulG modsqrt net s = Ret (Some o) -> public_key_text net o = Ret t ->
-     public_key int10 int16 mulG modsqrt net t = Ret (Some o)).
-Proof.
-  intros H. pose proof (H dec10 no_int mulG_w modsqrt_real btc_cfg w_sec_hex w_sec_key w_sec_text w_sec_parses w_sec_as_text) as R.
-  rewrite w_sec_not_reparsed in R. discriminate.
-Qed.
-
-Lemma public_pair_not_in_range :
-  ~ (forall int10 int16 mulG modsqrt net s pt c,
-     public_pair int10 int16 mulG modsqrt net s = Ret (Some (OKey (Pub pt) c)) ->
-     0 <= fst pt < curve_p /\ 0 <= snd pt < curve_p).
-Proof.
-  intros H. pose proof (H dec10 no_int mulG_w modsqrt_real btc_cfg w_pair_text _ _ w_pair_unreduced) as [[_ R] _].
-  cbn [fst] in R. revert R. apply Z.le_ngt. apply Z.le_succ_diag_r.
-Qed.
-
-Lemma unreduced_witnesses :
-  (public_pair dec10 no_int mulG_w modsqrt_real btc_cfg w_pair_text2 = Ret (Some w_pair_key2) /\
-   public_key_text btc_cfg w_pair_key2 = Raise E_OVERFLOW) /\
-  electrum_pub btc_cfg w_electrum_text = Ret (Some (OElectrum None (Pub (curve_p + 1, y_for_x1)))).
-Proof. split. exact w_pair_overflow. exact w_electrum_unreduced. Qed.
-
 Lemma kinds_disjoint_table mulG modsqrt net : In net table_cfgs ->
   forall d k1 k2, k1 <> k2 ->
   accepted (parse_kind mulG modsqrt net k1 d) -> accepted (parse_kind mulG modsqrt net k2 d) -> False.
 Proof.
   intros Hin. apply kinds_disjoint.
   pose proof table_kinds_separated as T. rewrite forallb_forall in T. exact (T net Hin).
+Qed.
+
+Lemma public_pair_not_total :
+  ~ (forall int10 int16 mulG modsqrt net s, on_curve (mulG 1) = true -> in_range (mulG 1) = true ->
+     returns (public_pair int10 int16 mulG modsqrt net s)).
+Proof.
+  intros H. destruct (H dec10 no_int mulG_w modsqrt_real btc_cfg w_pair_text) as [v Hv]; try (vm_compute; reflexivity).
+  destruct w_pair_raises as [R _]. rewrite R in Hv. discriminate.
 Qed.
 
 Lemma hd_pub_not_public :
